@@ -76,10 +76,21 @@ for recv, tin, tout in SCALARS:
                 fx = "f32" if d == "float32" else "f64"
                 out.append("//@   ensures[%s-range] is(v, %s) && err == nil ==> is(res, %s) && %s(as(res, %s)) == trunc(as(v, %s))" % (d, d, dst, fx, dst, d))
         out.append("//@   ensures[conforms] err == nil ==> res == nil || (%s)" % conf(dst))
+        out.append("//@   ensures[nonnil] err == nil && v != nil ==> res != nil")
+        pred = "conformsIn" if meth == "CoerceIn" else "conformsOut"
+        out.append("//@   ensures[conforms-spec] err == nil ==> %s(res, box(recv))" % pred)
+        out.append("//@   use %sDef_%s(res, box(recv))" % (pred, recv))
         if meth == "CoerceOut":
             out.append("//@   ensures[err-null] err != nil ==> res == nil")
         out.append("")
 
+ax = ["//@ -- conformance predicates of the statement (C04: conformsIn, C05: conformsOut), defined per type kind",
+      "//@ spec conformsIn(v interface{}, t Type) bool",
+      "//@ spec conformsOut(v interface{}, t Type) bool"]
+for recv, tin, tout in SCALARS:
+    ax.append("//@ axiom conformsInDef_%s(v interface{}, t Type): is(t, *%s) ==> (conformsIn(v, t) <==> (v == nil || (%s)))" % (recv, recv, conf(tin).replace("res", "v")))
+    ax.append("//@ axiom conformsOutDef_%s(v interface{}, t Type): is(t, *%s) ==> (conformsOut(v, t) <==> (v == nil || (%s)))" % (recv, recv, conf(tout).replace("res", "v")))
+out = ax + [""] + out
 text = "\n".join(out)
 path = os.path.join(os.path.dirname(os.path.abspath(__file__)), "verif_contracts.go")
 src = open(path).read()
